@@ -113,16 +113,17 @@ def lean_audit(pid, thorough=False):
     module = "Reclass.Props." + pid
     audit_file = os.path.join(LEAN, "Reclass", "Audit", pid + ".lean")
     os.makedirs(os.path.dirname(audit_file), exist_ok=True)
-    lines = ["import %s" % module, "open Reclass"]
+    prop_mods = [module] + [m for m in entry.get("modules", []) if m.startswith("Reclass.Props.")]
+    lines = ["import %s" % m for m in prop_mods] + ["open Reclass"]
     for t in thms:
         lines.append("#print axioms %s" % t["name"])
     body = "\n".join(lines) + "\n"
     if not os.path.exists(audit_file) or open(audit_file).read() != body:
         open(audit_file, "w").write(body)
-    cmd = "cd lean && lake build %s driver && lake env lean Reclass/Audit/%s.lean" % (module, pid)
+    cmd = "cd lean && lake build %s driver && lake env lean Reclass/Audit/%s.lean" % (" ".join(prop_mods), pid)
     failures = []
     try:
-        build_lean([module, "driver"])
+        build_lean(prop_mods + ["driver"])
     except BuildError as e:
         failures.append({"theorem": "(module %s does not build)" % module, "why": e.log[-3000:]})
         return dict(obligations=len(thms), discharged=0, theorems=thms, checker_cmd=cmd, failures=failures, axioms={})
@@ -170,6 +171,16 @@ def run_pipeline(cases, serial=False):
     env = dict(ENV)
     if serial:
         env["RVH_SERIAL"] = "1"
+    tmpd = tempfile.mkdtemp(prefix="verif-rvh-")
+    env["RVH_TMP"] = tmpd
+    try:
+        return _run_pipeline(cases, inp, env)
+    finally:
+        subprocess.run(["chmod", "-R", "u+rwX", tmpd], capture_output=True)
+        shutil.rmtree(tmpd, ignore_errors=True)
+
+
+def _run_pipeline(cases, inp, env):
     rc, out1, err1 = sh([RVH, "run"], inp=inp, timeout=3600, env=env)
     if rc != 0:
         # the harness process died (abort / stack overflow / signal inside the implementation):
